@@ -359,6 +359,8 @@ pub(crate) async fn exec_model_trace(t: Trace, prop: &'static str) -> Outcome {
     let mut ctx: u32 = 0;
     let mut ambiguous: Option<String> = None;
     let mut extra_hint: u32 = 0;
+    // name (channel or nick) -> (properties of recent operations on it, step of the last one)
+    let mut dirty: std::collections::HashMap<String, (u32, usize)> = std::collections::HashMap::new();
     let mut viol: Option<Violation> = None;
     let mut status = Status::Ok;
     'outer: for a in &t.actions {
@@ -401,6 +403,13 @@ pub(crate) async fn exec_model_trace(t: Trace, prop: &'static str) -> Outcome {
             Action::BreakWrites { c } => {
                 let se = m.break_writes(*c);
                 labels.extend(se.labels);
+                w.apply(a).await;
+            }
+            Action::Window { c, .. } => {
+                // a reader with a bounded window is not judged line by line
+                if let Some(cn) = m.conns.get_mut(*c) {
+                    cn.deaf = true;
+                }
                 w.apply(a).await;
             }
             Action::Mark { m: mk } => {
@@ -482,6 +491,64 @@ pub(crate) async fn exec_model_trace(t: Trace, prop: &'static str) -> Outcome {
                     out.cov_keys.push(hash_key(&[l, &nu, &nc]));
                     if l.starts_with("end/") || l.starts_with("fault/") || l.starts_with("open/") {
                         out.count(l, 1);
+                    }
+                }
+                for (name, mask) in m.touched.drain(..) {
+                    let e = dirty.entry(name).or_insert((0, step));
+                    if step > e.1 + 20 {
+                        e.0 = 0;
+                    }
+                    e.0 |= mask;
+                    e.1 = step;
+                }
+                // probe discrepancies are also attributed to the recent operations on the objects they mention
+                for d in discs.iter_mut() {
+                    let is_probe_reply = d.exp.as_deref().or(d.obs.as_deref()).map_or(false, |l| {
+                        let h = head_of(l);
+                        h.len() == 3 && h.bytes().all(|b| b.is_ascii_digit()) && !matches!(h.as_str(), "451" | "461" | "421")
+                    });
+                    if !is_probe_reply || d.props == 0 {
+                        continue;
+                    }
+                    let h = head_of(d.exp.as_deref().or(d.obs.as_deref()).unwrap_or(""));
+                    let allowed = match h.as_str() {
+                        "324" | "329" | "367" | "348" | "346" => P06 | P08 | P09 | P15 | P16,
+                        "353" | "352" | "319" | "366" | "315" => P04 | P06 | P07 | P09 | P15 | P16,
+                        "322" | "331" | "332" | "333" => P04 | P06 | P09 | P16,
+                        "221" | "313" | "378" | "379" | "381" => P11 | P15 | P19,
+                        "301" => P10 | P15,
+                        "302" | "303" | "251" | "252" | "255" | "265" | "266" => P19 | P06 | P15 | P11,
+                        "254" => P19 | P06 | P16,
+                        "311" | "312" | "317" | "318" | "314" | "369" | "406" | "401" | "433" => P06 | P15 | P02,
+                        "403" | "442" | "441" | "443" | "473" | "341" => P06 | P16 | P15 | P09,
+                        _ => 0,
+                    };
+                    let mut text = format!("{} {}", d.exp.clone().unwrap_or_default(), d.obs.clone().unwrap_or_default());
+                    if matches!(h.as_str(), "251" | "252" | "254" | "255" | "265" | "266") {
+                        // global counters: any recent change of the user/channel population may be the cause
+                        for (k, (_, at)) in dirty.iter() {
+                            if step <= at + 6 {
+                                text.push(' ');
+                                text.push_str(k);
+                            }
+                        }
+                    }
+                    let mut derived = 0u32;
+                    for tok in text.split(|c: char| " \u{1f},:!@~&%+=*\"[]".contains(c)) {
+                        if let Some((mask, at)) = dirty.get(tok) {
+                            if step <= at + 20 {
+                                derived |= mask & allowed;
+                            }
+                        }
+                    }
+                    // a pure query reply that is wrong is blamed on the recent operations on the objects it
+                    // mentions, if there are any; otherwise on the query's own property
+                    let is_query = stim_verbs.iter().all(|v| matches!(v.as_str(), "NAMES" | "WHO" | "WHOIS" | "LIST" | "LUSERS" | "ISON" | "USERHOST" | "WHOWAS" | "TOPIC"))
+                        || (stim_verbs.iter().all(|v| v == "MODE") && matches!(h.as_str(), "324" | "221"));
+                    if is_query && derived != 0 {
+                        d.props = derived | (d.props & P12);
+                    } else {
+                        d.props |= derived;
                     }
                 }
                 if !discs.is_empty() && std::env::var("VERIF_DEBUG").map_or(false, |v| v == "2") {
